@@ -494,7 +494,7 @@ TPCreate(o, foreign) ==
     /\ obj' = [ obj EXCEPT ![o] = [ NoObj EXCEPT !.exists = TRUE, !.inc = uidc, !.ver = 1, !.content = "foreign",
                                                   !.owners = IF foreign THEN ForeignOwner ELSE <<>> ] ]
     /\ uidc' = uidc + 1
-    /\ EnvW("EnvCreate", o, obj[o], obj'[o]) /\ UNCHANGED <<cr, pc, dyn, budget>>
+    /\ EnvW("EnvCreate", o, obj[o], obj'[o]) /\ UNCHANGED <<cr, pc, dyn>>
 
 UserCreate(s) ==
     /\ ~cr[s].exists /\ cr[s].inc = 0
